@@ -49,7 +49,7 @@ class PathState:
         self.trace = []              # ghost event trace (calls on opaque objects, file ops...)
         self.notes = []
         self._solver = z3.Solver()
-        self._solver.set("timeout", 2000)
+        self._solver.set("timeout", int(__import__("os").environ.get("PYVC_BRANCH_TIMEOUT_MS", "400")))
         self.ctx = ctx
 
     # ---- symbols -------------------------------------------------------------------
